@@ -73,6 +73,23 @@ func (st *Store) Reopen() error {
 	return nil
 }
 
+var zone530 = time.FixedZone("verif+0530", 5*3600+1800)
+
+// T turns Unix seconds into a time.Time whose Location depends on the value (deterministically, so that
+// histories replay): the same instant reaches the storage as Local, UTC or a fixed-offset zone, as it does in
+// production (attime.Parse yields UTC for YYYYMMDD dates and Local for Unix timestamps). Instants are what
+// matters; nothing may depend on the Location.
+func T(unix int64) time.Time {
+	t := time.Unix(unix, 0)
+	switch (unix / 10) % 3 {
+	case 1:
+		return t.UTC()
+	case 2:
+		return t.In(zone530)
+	}
+	return t
+}
+
 // Op is one step of a storage history (JSON-serialisable: it is part of harness inputs).
 type Op struct {
 	Kind   string        `json:"kind"` // put | get | delete | retention | evict | restart
@@ -125,7 +142,7 @@ func (st *Store) Apply(op Op) (res OpResult) {
 			st.Cfg.Retention = 0
 		}
 		err = st.S.Put(&storage.PutInput{
-			StartTime: time.Unix(op.From, 0), EndTime: time.Unix(op.Until, 0), Key: key, Val: t,
+			StartTime: T(op.From), EndTime: T(op.Until), Key: key, Val: t,
 			SpyName: op.Spy, SampleRate: op.Rate, Units: op.Units, AggregationType: op.Agg,
 		})
 		if err != nil {
@@ -136,7 +153,7 @@ func (st *Store) Apply(op Op) (res OpResult) {
 		if err != nil {
 			return OpResult{Err: err.Error()}
 		}
-		out, err := st.S.Get(&storage.GetInput{StartTime: time.Unix(op.From, 0), EndTime: time.Unix(op.Until, 0), Key: key})
+		out, err := st.S.Get(&storage.GetInput{StartTime: T(op.From), EndTime: T(op.Until), Key: key})
 		if err != nil {
 			return OpResult{Err: err.Error()}
 		}
@@ -165,7 +182,7 @@ func (st *Store) Apply(op Op) (res OpResult) {
 			return OpResult{Err: err.Error()}
 		}
 	case "retention":
-		if err := st.S.DeleteDataBefore(time.Unix(op.From, 0)); err != nil {
+		if err := st.S.DeleteDataBefore(T(op.From)); err != nil {
 			return OpResult{Err: err.Error()}
 		}
 	case "evict":
